@@ -8,7 +8,7 @@ Single-capability calls have one single-bit group.  Mode-dependent calls (`fopen
 depending on the mode argument) and calls shared by two features (`getaddrinfo`: connect or listen;
 `dlopen`/`dlsym`: native modules or FFI) have one multi-bit group: statically some capability of the group must
 have been asserted on every path; that it is the *right* one for the arguments is checked by the dynamic sweep
-(harness/C18), which uses the per-binding table there.
+(harness/C18), which uses the per-binding table there.  `open`/`open64` are stricter: see `needOpen`.
 
 tools/gen/sandbox.py reads the *names* in `sensitive`, `benign` and `spawners` from this file (single source).
 -/
@@ -113,6 +113,10 @@ def sensitive : List (String × List Mask) := [
 def exempt : List (String × String) := [
   ("ts_now", "clock_gettime"),        -- event-loop deadline arithmetic (ev.c); the value is never returned to the program
   ("janet_cryptorand", "open64"),     -- fixed path /dev/urandom (os/cryptorand)
+  ("janet_ev_init_common", "sigaction"),  -- event-loop start-up: reads the SIGPIPE disposition …
+  ("janet_ev_init_common", "signal"),     -- … and ignores SIGPIPE if the host left the default (writes to a closed pipe
+                                          -- must give EPIPE, not kill the process); no program-supplied handler is involved
+  ("os_execute_impl", "signal"),      -- around fork/exec: SIGPIPE back to the default for the new program, then ignored again
   ("os_execute_impl", "environ")      -- the child process is handed the parent's environment block (or a caller-made
                                       -- one); no variable is read for or returned to the program
 ]
@@ -146,15 +150,32 @@ def benign : List String := [
   "inotify_init1", "inotify_rm_watch",
   "posix_spawn_file_actions_init", "posix_spawn_file_actions_addchdir_np", "posix_spawn_file_actions_adddup2",
   "posix_spawn_file_actions_addclose", "posix_spawn_file_actions_destroy",
+  "posix_spawnattr_init", "posix_spawnattr_destroy", "posix_spawnattr_setflags", "posix_spawnattr_setsigdefault",
   "stdin", "stdout", "stderr"]
 
 def lookup (name : String) : List (String × List Mask) → Option (List Mask)
   | [] => none
   | (k, v) :: t => if k == name then some v else lookup name t
 
-/-- requirement of call `name` made from C function `fn` (`[]` = nothing required) -/
-def need (fn name : String) : List Mask :=
-  if exempt.contains (fn, name) then [] else (lookup name sensitive).getD []
+/-! open(2): the requirement follows the flags argument.  The translator tracks the flags variable of the calling
+    function, projected onto `modeRelevant` (Linux values of O_ACCMODE, O_CREAT, O_TRUNC; O_APPEND/O_EXCL/O_SYNC/… do not
+    change what kind of access the descriptor gives).  Access mode 3 is not a valid mode and is used by the translator for
+    "flags argument could not be tracked": it requires both capabilities. -/
+abbrev modeRelevant : Nat := 3 ||| 64 ||| 512
+
+def openLike : List String := ["open", "open64", "openat", "openat64"]
+
+def needOpen (md : Nat) : List Mask :=
+  let acc := md &&& 3
+  (if acc == 0 || acc == 2 || acc == 3 then [capFsRead] else []) ++
+  (if acc == 1 || acc == 2 || acc == 3 || md &&& 64 != 0 || md &&& 512 != 0 then [capFsWrite] else [])
+
+/-- requirement of call `name` made from C function `fn` while the tracked flags variable of the activation is `md`
+    (`[]` = nothing required) -/
+def need (fn name : String) (md : Nat) : List Mask :=
+  if exempt.contains (fn, name) then []
+  else if openLike.contains name then needOpen md
+  else (lookup name sensitive).getD []
 
 /-- every external symbol of the program is classified (sensitive or reviewed-benign) -/
 def classified (name : String) : Bool :=
